@@ -1928,21 +1928,19 @@ class BaseInterpreter(Generic[TContext, TEvent]):
         #    itself healthy. Rolling back to the pre-transition configuration
         #    keeps the machine in a state that genuinely exists; the exception
         #    still propagates so the caller learns the transition failed.
+        exit_order = sorted(
+            list(states_to_exit),
+            # 🔀 Depth alone leaves ties between sibling parallel
+            #    regions, so set iteration order decided which exited
+            #    first — the same machine and event could emit exit
+            #    actions in a different order between runs, which is
+            #    untestable and makes cleanup logic subtly unreliable.
+            #    `id` is a stable secondary key.
+            key=lambda s: (s.depth, s.id),
+            reverse=True,
+        )
         try:
-            await self._exit_states(
-                sorted(
-                    list(states_to_exit),
-                    # 🔀 Depth alone leaves ties between sibling parallel
-                    #    regions, so set iteration order decided which exited
-                    #    first — the same machine and event could emit exit
-                    #    actions in a different order between runs, which is
-                    #    untestable and makes cleanup logic subtly unreliable.
-                    #    `id` is a stable secondary key.
-                    key=lambda s: (s.depth, s.id),
-                    reverse=True,
-                ),
-                event,
-            )
+            await self._exit_states(exit_order, event)
             await self._execute_actions(transition.actions, event)
             await self._enter_states(path_to_enter, event)
 
@@ -1973,6 +1971,12 @@ class BaseInterpreter(Generic[TContext, TEvent]):
                 transition.source.id,
                 exc_info=True,
             )
+            # 🧮 States the abort caught before their own exit began still own
+            #    their timers and services: only the first one still active was
+            #    in the middle of exiting (its tasks are already cancelled).
+            not_yet_exited = [
+                n for n in exit_order if n in self._active_state_nodes
+            ][1:]
             self._active_state_nodes.clear()
             self._active_state_nodes.update(snapshot_before)
             self._history = history_before
@@ -1983,8 +1987,10 @@ class BaseInterpreter(Generic[TContext, TEvent]):
             #    a rolled-back state with `after: {250: "timeout"}` would never
             #    time out again. Re-scheduling makes the rollback a true
             #    restore rather than a cosmetic one.
+            #    (Re-arming a state that was never torn down would run its
+            #    timers and services twice.)
             for node in snapshot_before:
-                if node in states_to_exit:
+                if node in states_to_exit and node not in not_yet_exited:
                     self._schedule_state_tasks(node)
             raise
 
